@@ -130,19 +130,29 @@ def check_dsis(case):
                 zero_div = True
             else:
                 zero_div = False
+            swap = bool(case.get("swap"))
+            if swap and op in ("udiv", "urem"):
+                # the set is the divisor now
+                zero_div = 0 in xs
+                if zero_div:
+                    xs = [x for x in xs if x != 0]
+                ys = sg.members(spec_mask(n, case["b"]))
             try:
-                r = fn(a, b)
+                r = fn(b, a) if swap else fn(a, b)
             except Exception as e:  # noqa: BLE001
                 if zero_div:
                     return []
                 raise e
+            if r is NotImplemented:
+                return [("declined", {})]
             g = gamma_any(r)
             if g is None:
                 fail("unknown-result-type", result=type(r).__name__)
                 return fails
             for x in xs:
                 for y in ys:
-                    v = ir.bv_cmp(irop, x, y, n) if op in DSIS_CMP else ir.bv_binop(irop, x, y, n)
+                    p_, q_ = (y, x) if swap else (x, y)
+                    v = ir.bv_cmp(irop, p_, q_, n) if op in DSIS_CMP else ir.bv_binop(irop, p_, q_, n)
                     if (g[0] == "bool" and bool(v) not in g[1]) or (g[0] == "bv" and not (g[2] >> int(v)) & 1):
                         if not case.get("_noattr") and attributed():
                             return [("attributed", {})]
@@ -150,7 +160,9 @@ def check_dsis(case):
                         return fails
             return fails
         if op in DSIS_SET:
-            r = DSIS_SET[op](a, b)
+            r = DSIS_SET[op](b, a) if case.get("swap") else DSIS_SET[op](a, b)
+            if r is NotImplemented:
+                return [("declined", {})]
             g = gamma_any(r)
             if g is None or g[0] != "bv":
                 fail("unknown-result-type", result=type(r).__name__)
@@ -163,14 +175,17 @@ def check_dsis(case):
                 fail("missing", result=_d(r), value=sg.members(want & ~g[2])[0])
             return fails
         if op == "concat":
-            r = a.concat(b)
+            swap = bool(case.get("swap"))
+            r = b.concat(a) if swap else a.concat(b)
+            if r is NotImplemented:
+                return [("declined", {})]
             g = gamma_any(r)
             if g is None or g[0] != "bv" or g[1] != 2 * n:
                 fail("wrong-result", result=_d(r))
                 return fails
             for x in xs:
                 for y in ys:
-                    if not (g[2] >> ((x << n) | y)) & 1:
+                    if not (g[2] >> (((y << n) | x) if swap else ((x << n) | y))) & 1:
                         if not case.get("_noattr") and attributed():
                             return [("attributed", {})]
                         fail("missing", result=_d(r), x=x, y=y)
@@ -230,6 +245,11 @@ def check_dsis(case):
     except Exception as e:  # noqa: BLE001
         if isinstance(e, NotImplementedError) or type(e).__name__ == "ClaripyVSAOperationError":
             return [("declined", {})]  # "unsupported operand type": the operation says so itself
+        if case.get("swap") and (isinstance(e, TypeError) and "unsupported operand" in str(e) or isinstance(e, AssertionError) and op in ("shl", "ashr")
+                                 or isinstance(e, AttributeError) and ("stridedinterval" in str(e) or "'int' object" in str(e))):
+            # the plain interval's method (or Python itself) refuses a set as its second operand: Python's "unsupported operand"
+            # TypeError, the type assertion on shift amounts, the interval class' operand conversion, a method called on an int
+            return [("declined", {})]
         fail("exception:" + type(e).__name__, result="exc", exc=repr(e)[:120])
     return fails
 
@@ -471,6 +491,9 @@ def enum_dsis(n):
         for b in singles:
             for op in (*DSIS_BIN, *DSIS_CMP, *DSIS_SET, "concat"):
                 yield {"kind": "dsis", "bits": n, "op": op, "a": aspec, "b": b, "param": None}
+                if b[0] == "si" and len(a) > 1:
+                    # the plain interval first, the set second (reflected operators, named operations of the interval class)
+                    yield {"kind": "dsis", "bits": n, "op": op, "a": aspec, "b": b, "param": None, "swap": True}
         for b in sets:
             if len(b) == 1 and len(a) == 1:
                 continue
@@ -513,7 +536,10 @@ def gen_dsis(draw):
         param = [hi, draw(st.integers(0, hi))]
     elif op in ("zero_extend", "sign_extend"):
         param = draw(st.sampled_from((1, 2, n)))
-    return {"kind": "dsis", "bits": n, "op": op, "a": a, "b": b, "param": param}
+    case = {"kind": "dsis", "bits": n, "op": op, "a": a, "b": b, "param": param}
+    if b is not None and b[0] in ("si", "int") and draw(st.integers(0, 2)) == 0 and not (b[0] == "int" and op in DSIS_SET or op == "concat" and b[0] == "int"):
+        case["swap"] = True  # the plain operand first, the set second
+    return case
 
 
 @st.composite
